@@ -4,7 +4,7 @@
 # quick check of the property it belongs to, expect a VIOLATION.
 # usage: selftest/revert-fixes.sh [commit ...]
 cd "$(dirname "$0")/.."
-declare -A PROP=( [0ea1f3b]=C18 [f054e0c]=C18 [5809fcf]=C18 [52d3481]=C18 [0538a39]=C18 [7e1be8b]=C18 [886e3b9]=C18 [a969596]=C18 [c5ace5b]=C18 [32a735b]=C18 [153a2c1]=C20 [cf0d7f6]=C20 [9288d04]=C19 [ed9b7d4]=C19 [39982ad]=C03 [3351948]=C04 [423f497]=C04 [426090a]=C04 [4c697be]=C10 [72e1037]=C10 [eccafbc]=C10 [067256a]=C04 [7b1de17]=C11 [c843097]=C11 [55ed310]=C11 [ef73bf7]=C09 [704859f]=C09 [e7c6a61]=C13 [90616b3]=C14 [786b971]=C14 )
+declare -A PROP=( [0ea1f3b]=C18 [f054e0c]=C18 [5809fcf]=C18 [52d3481]=C18 [0538a39]=C18 [7e1be8b]=C18 [886e3b9]=C18 [a969596]=C18 [c5ace5b]=C18 [32a735b]=C18 [dfca8e6]=C11 [153a2c1]=C20 [cf0d7f6]=C20 [9288d04]=C19 [ed9b7d4]=C19 [39982ad]=C03 [3351948]=C04 [423f497]=C04 [426090a]=C04 [4c697be]=C10 [72e1037]=C10 [eccafbc]=C10 [067256a]=C04 [7b1de17]=C11 [c843097]=C11 [55ed310]=C11 [ef73bf7]=C09 [704859f]=C09 [e7c6a61]=C13 [90616b3]=C14 [786b971]=C14 )
 rc=0
 list="$*"; [ -z "$list" ] && list="${!PROP[@]}"
 for c in $list; do
@@ -12,8 +12,8 @@ for c in $list; do
   W=/tmp/revfix-$c-$$
   git -C /repo worktree add -q --detach $W HEAD || exit 2
   if ! git -C /repo show $c | git -C $W apply -R 2>/dev/null; then echo "skip $c (does not reverse-apply)"; git -C /repo worktree remove --force $W; continue; fi
-  out=$(VERIF_REPO=$W VERIF_KF_ALWAYS=${KF:-} VERIF_BUDGET_S=${BUDGET:-90} ./run $p quick 2>&1); code=$?
-  git -C /repo worktree remove --force $W; rm -rf $W
+  out=$(VERIF_REPLAY_DIR=$W.replays VERIF_REPO=$W VERIF_KF_ALWAYS=${KF:-} VERIF_BUDGET_S=${BUDGET:-90} ./run $p quick 2>&1); code=$?
+  git -C /repo worktree remove --force $W; rm -rf $W $W.replays
   n=$(echo "$out" | grep -c '^VIOLATION')
   cls=$(echo "$out" | grep -m1 '^  class=' | sed 's/^  class=//')
   if [ $code -eq 1 ] && [ $n -gt 0 ]; then echo "caught  $c $p ($n violation lines; $cls)"; else echo "MISSED  $c $p (exit $code)"; rc=1; fi
